@@ -24,9 +24,16 @@ type Scanner interface {
 type Error struct {
 	Got      *token.Token
 	Expected string
+
+	// If not empty, Message is the complete description of the error (the
+	// token Got only gives its location).
+	Message string
 }
 
 func (e Error) Error() string {
+	if e.Message != "" {
+		return fmt.Sprintf("%d:%d: %s", e.Got.Line, e.Got.Column, e.Message)
+	}
 	expected := e.Expected
 	if e.Got.Type == token.INVALID {
 		expected = "invalid token: " + expected
@@ -372,11 +379,7 @@ func (p *Parser) ShortExp(t *token.Token) (ast.ExpNode, *token.Token) {
 		}
 		exp, t = n, p.Scan()
 	case token.STRING:
-		s, err := ast.NewString(t)
-		if err != nil {
-			panic(err)
-		}
-		exp, t = s, p.Scan()
+		exp, t = newString(t), p.Scan()
 	case token.LONGSTRING:
 		exp, t = ast.NewLongString(t), p.Scan()
 	case token.SgOpenBrace:
@@ -539,15 +542,23 @@ func (p *Parser) Args(t *token.Token) ([]ast.ExpNode, *token.Token) {
 		arg, t := p.TableConstructor(t)
 		return []ast.ExpNode{arg}, t
 	case token.STRING:
-		arg, err := ast.NewString(t)
-		if err != nil {
-			panic(err)
-		}
-		return []ast.ExpNode{arg}, p.Scan()
+		return []ast.ExpNode{newString(t)}, p.Scan()
 	case token.LONGSTRING:
 		return []ast.ExpNode{ast.NewLongString(t)}, p.Scan()
 	}
 	return nil, t
+}
+
+// newString returns the ast.String for the given token, which should be a
+// short string literal.  If its value cannot be computed (e.g. because an
+// escape sequence is out of range) it panics with an Error located at the
+// token.
+func newString(t *token.Token) ast.String {
+	s, err := ast.NewString(t)
+	if err != nil {
+		panic(Error{Got: t, Message: err.Error()})
+	}
+	return s
 }
 
 // ExpList parses a comma separated list of expressions.
